@@ -22,7 +22,7 @@ USEC = 1000000
 
 
 def params():
-    txt = open(os.path.join(ltv.COQ, "Params_gen.v")).read()
+    txt = open(os.path.join(ltv.COQ, "C13", "ParamsGen.v")).read()
     out = {}
     for m in re.finditer(r"Definition (trk_\w+) : Z := (-?\d+)%Z", txt):
         out[m.group(1)] = int(m.group(2))
@@ -203,6 +203,7 @@ def run(rep, tier, seed, replay):
     mo = ltv.run_sharded(model, cases)
     io = ltv.run_sharded(impl, cases, timeout=900)
     nontrivial = set()
+    pending = []
     mism = 0
     samples = []
     nreq = 0
@@ -230,17 +231,25 @@ def run(rep, tier, seed, replay):
         viol = oracle(case, o, P)
         if m != o:
             mism += 1
-            real = [v for v in viol if True]
+            # prefer an unclassified property failure as the headline of a disagreement
+            real = sorted(viol, key=lambda v: v[0] is not None)
             if real:
                 kl, text = real[0]
-                rep.violation("model and implementation differ AND the property fails on the implementation: " + text + " ; " + first_diff(m, o),
-                              case=case, model=m, impl=o, theorem="correspondence C13 (per-op controller/list state and requests)", klass=kl)
+                pending.append((0 if kl is None else 1, dict(
+                    what="model and implementation differ AND the property fails on the implementation: " + text + " ; " + first_diff(m, o),
+                    case=case, model=m, impl=o, theorem="correspondence C13 (per-op controller/list state and requests)", klass=kl)))
             else:
-                rep.violation("correspondence broken: model and implementation differ on this history (property oracle holds on it): " + first_diff(m, o),
-                              case=case, model=m, impl=o, theorem="correspondence C13 (per-op controller/list state and requests)", found_input=False)
+                pending.append((2, dict(
+                    what="correspondence broken: model and implementation differ on this history (property oracle holds on it): " + first_diff(m, o),
+                    case=case, model=m, impl=o, theorem="correspondence C13 (per-op controller/list state and requests)", found_input=False)))
         else:
             for kl, text in viol:
-                rep.violation(text, case=case, model=m, impl=o, theorem="property oracle C13", klass=kl)
+                pending.append((0 if kl is None else 3, dict(what=text, case=case, model=m, impl=o, theorem="property oracle C13", klass=kl)))
+    # new / unclassified failures first (the report keeps the first 20 replays), shortest history first
+    pending.sort(key=lambda x: (x[0], len(x[1]["case"])))
+    for _, kw in pending:
+        what = kw.pop("what")
+        rep.violation(what, **kw)
     if not coq["ok"]:
         rep.violation("C13 proof obligations no longer check (%d/%d): %s %s" % (
             coq["discharged"], coq["obligations"], "; ".join(coq["lint"] + coq["bad_axioms"]), coq["log"][-1500:]),
